@@ -66,6 +66,8 @@ func VPH_recordTree() {
 	want := vpNumbers(s)
 	old := want
 	oldEntriesPath, oldDepthPath := s.MaxTreeEntriesTree, s.MaxPathDepthTree
+	oldLenPath, oldXTreesPath, oldXBlobsPath := s.MaxPathLengthTree, s.MaxExpandedTreeCountTree, s.MaxExpandedBlobCountTree
+	oldXBytesPath, oldXLinksPath, oldXSubsPath := s.MaxExpandedBlobSizeTree, s.MaxExpandedLinkCountTree, s.MaxExpandedSubmoduleCountTree
 
 	s.recordTree(g, vpOID, ts, counts.Count32(size), counts.Count32(entries))
 
@@ -83,6 +85,13 @@ func VPH_recordTree() {
 	vpExpect(vpNumbers(s), want, "recordTree")
 	vpWitness(style, s.MaxTreeEntriesTree, oldEntriesPath, uint64(entries) > old[vpiMaxEntries], "tree")
 	vpWitness(style, s.MaxPathDepthTree, oldDepthPath, uint64(ts.MaxPathDepth) > old[vpiPDepth], "tree")
+	// each of the eight tree metrics keeps its own witness (C08)
+	vpWitness(style, s.MaxPathLengthTree, oldLenPath, uint64(ts.MaxPathLength) > old[vpiPLen], "tree")
+	vpWitness(style, s.MaxExpandedTreeCountTree, oldXTreesPath, uint64(ts.ExpandedTreeCount) > old[vpiXTrees], "tree")
+	vpWitness(style, s.MaxExpandedBlobCountTree, oldXBlobsPath, uint64(ts.ExpandedBlobCount) > old[vpiXBlobs], "tree")
+	vpWitness(style, s.MaxExpandedBlobSizeTree, oldXBytesPath, uint64(ts.ExpandedBlobSize) > old[vpiXBytes], "tree")
+	vpWitness(style, s.MaxExpandedLinkCountTree, oldXLinksPath, uint64(ts.ExpandedLinkCount) > old[vpiXLinks], "tree")
+	vpWitness(style, s.MaxExpandedSubmoduleCountTree, oldXSubsPath, uint64(ts.ExpandedSubmoduleCount) > old[vpiXSubs], "tree")
 	vp_Reach("end")
 }
 
